@@ -48,10 +48,16 @@ def fd_part(ck, tier):
             g = np.zeros(self.x.shape[1])
             g[0] = 0.5 * theta[0]
             return g
+
+    class RampNoGradient(Ramp):
+        """the same mean written by a user who implemented the abstract methods only: the base class's spatial_gradient applies"""
+        spatial_gradient = MeanFunction.spatial_gradient
     rng = np.random.default_rng(seed() + 16)
     problems = []
     x1 = np.array([0.0, 0.7, 1.9, 3.2, 4.0])
     problems.append(("user-defined one-parameter mean, 1-D", x1, np.sin(x1) + 0.5 * x1, Ramp(), np.array([0.8, 0.2, 0.1]), np.array([[0.4], [2.5], [3.7]]), 1.0))
+    problems.append(("user-defined mean without a spatial_gradient method (a refusal is accepted, a wrong derivative is not)", x1, np.sin(x1) + 0.5 * x1, RampNoGradient(),
+                     np.array([0.8, 0.2, 0.1]), np.array([[0.4], [2.5], [3.7]]), 1.0))
     x2 = rng.uniform(-1, 1, size=(6, 2))
     problems.append(("user-defined one-parameter mean, 2-D", x2, x2[:, 0] - x2[:, 1] ** 2, Ramp(), np.array([0.8, 0.2, 0.1, -0.2]), np.array([[0.1, 0.2], [-0.5, 0.6]]), 1.0))
     xb = np.array([0.0, 2.0e5, 4.5e5, 7.0e5, 1.0e6])
@@ -78,6 +84,11 @@ def fd_part(ck, tier):
                         (ma, sa), (mb, sb) = gp(qa if d > 1 else qa[:, 0]), gp(qb if d > 1 else qb[:, 0])
                         fd_m[i, k] = (float(ma[0]) - float(mb[0])) / (2 * h)
                         fd_v[i, k] = (float(sa[0]) ** 2 - float(sb[0]) ** 2) / (2 * h)
+        except NotImplementedError as ex:
+            if isinstance(mean, RampNoGradient):
+                continue                 # refused: nothing wrong is reported to the user
+            ck.violation("derivative prediction raised", {"problem": label, "error": repr(ex)[:300]}, site="GpRegressor.gradient")
+            continue
         except Exception as ex:
             ck.violation("derivative prediction raised", {"problem": label, "error": repr(ex)[:300]}, site="GpRegressor.gradient")
             continue
